@@ -1371,7 +1371,9 @@ func (c *Compiler) compileSetItem(node *ast.Assign) error {
 		// The container and index expressions must be evaluated only once if
 		// they can have side effects, e.g. x[next()] += 1. In that case they
 		// are kept on the stack for the store instead of being compiled again.
-		keep := !isRepeatable(index.Left()) || !isRepeatable(index.Index())
+		// The same holds when the assigned value can have side effects: it
+		// may change a variable that the container or index expression reads.
+		keep := !isRepeatable(index.Left()) || !isRepeatable(index.Index()) || !isRepeatable(node.Value())
 
 		// 1. Load the current value: test[0]
 		if err := c.compile(index.Left()); err != nil {
